@@ -54,6 +54,9 @@ CLAIMED['C07'] = ('ir2c', 'CBMC (z3 / kissat) equivalence checking of the two te
 CLAIMED['C11'] = ('irsym+ir2c', 'engine C (exact reals, sin/cos pairs, mechanically instantiated parity/double-angle axioms, z3) per Euler order; CBMC for the order and slot-permutation bookkeeping',
     'For each of the 24 orders and ALL angle triples: toMatrix33 and toMatrix44 are orthonormal with determinant +1 and hold the same rotation, toQuat() represents that rotation (via toMatrix33 of the quaternion), XYZ equals Matrix44::setEulerAngles == Rx Ry Rz; order()/setOrder round trip for the 24 enumerators and setXYZVector/toXYZVector/XYZ-layout constructor are mutually inverse permutations for every bit pattern.',
     ENGC_NOTE + ' extract()/re-ordering round trips, angleMod/makeNear/nearestRotation are not decided.', '3/C11')
+CLAIMED['C10'] = ('irsym', 'engine C: bounded symbolic execution of the clang IR over the exact reals, unit-quaternion constraint r^2+|v|^2=1, sqrt witnesses, sin/cos pairs with mechanically instantiated half-angle identities; z3',
+    'For ALL unit quaternions and vectors: toMatrix33/toMatrix44 hold the documented orthonormal det +1 rotation, rotateVector(v) == v*q == v*toMatrix33(), toMatrix33(q1*q2) == toMatrix33(q2)*toMatrix33(q1), q*inverse(q) == 1, inverse/invert/conjugate/normalize(d) formulas, Quat::setAxisAngle builds the same Rodrigues rotation as Matrix44::setAxisAngle for every non-zero axis, extractQuat(q.toMatrix44()) is +-q on every branch (budgeted), setRotation(from,to) in the thorough tier.',
+    ENGC_NOTE + ' slerp/squad/spline, exp/log and angle()/axis() are not decided.', '3/C10')
 NOT_YET = 'check not built yet in this working session (planned in DESIGN.md section 3); no claim is made'
 NA = {}
 
@@ -84,7 +87,7 @@ def main():
         'engines': [
             {'name': 'cbmc-c', 'path': 'harness/c01/half_c.c + vf/cbmc.py', 'serves_properties': ['C01', 'C02'], 'kind_free_text': 'CBMC on half.h compiled as C'},
             {'name': 'ir2c', 'path': 'vf/ll2c.py + vf/build.py + vf/cbmc.py', 'serves_properties': sorted(CLAIMED), 'kind_free_text': 'clang++-14 -O1 LLVM IR of wrapper TUs (real headers / real .cpp) -> own IR->C translator -> CBMC (minisat/cadical/kissat/z3/cvc5)'},
-            {'name': 'irsym', 'path': 'vf/irsym.py + vf/symcase.py', 'serves_properties': ['C05', 'C06', 'C09', 'C11', 'C13', 'C14', 'C15', 'C16'], 'kind_free_text': 'own symbolic executor over the same LLVM IR, floats as exact reals, z3 nlsat'},
+            {'name': 'irsym', 'path': 'vf/irsym.py + vf/symcase.py', 'serves_properties': ['C05', 'C06', 'C09', 'C10', 'C11', 'C13', 'C14', 'C15', 'C16'], 'kind_free_text': 'own symbolic executor over the same LLVM IR, floats as exact reals, z3 nlsat'},
         ],
         'checks': checks,
         'not_applicable': na,
